@@ -27,7 +27,7 @@ def known_match(known, prop, key):
 
 def write_evidence(prop, tier, level, coverage, assumptions, wall_s, violations, seed=0):
     os.makedirs(EVID, exist_ok=True)
-    ev = {'property_id': prop, 'tier': tier, 'seed': seed, 'level': level, 'coverage': coverage, 'assumptions': assumptions,
+    ev = {'property_id': prop, 'tier': tier, 'seed': seed if isinstance(seed, int) else 0, 'level': level, 'coverage': coverage, 'assumptions': assumptions,
           'wall_s': round(wall_s, 2), 'violations': violations}
     tmp = os.path.join(EVID, prop + '.json.tmp%d' % os.getpid())
     json.dump(ev, open(tmp, 'w'), indent=1, default=str)
